@@ -611,6 +611,8 @@ def prove_ptr(prog, s, ctx, R, facts):
                     size_p = an_['size']
             elif ba['k'] == 'DeclRefExpr' and ba['decl'].get('dk') == 'param':
                 continue   # forwarded: checked where g is the callee
+            elif ba['k'] == 'MemberExpr' and ba.get('mk') == 'field' and re.match(r'^(?:unsigned |signed )?char\[(\d+)\]$', ba.get('ftype', '')):
+                size_p = P.const(int(re.match(r'^(?:unsigned |signed )?char\[(\d+)\]$', ba['ftype']).group(1)))
             elif ba['k'] == 'MemberExpr' and ba.get('mk') == 'field':
                 import p_c18
                 for h, nid2, rhs in p_c18.field_writes(prog, ba['fclass'], ba['member']):
